@@ -65,7 +65,10 @@ def gen_state(rng, safe=False):
           [Sx("n"), ["d", [[Sx("x"), iv()], [Sx("y"), iv()], [I(1), iv()]]]],
           [Sx("k"), Sx(rng.choice("abc"))],
           [Sx("f"), ["fn", 0]], [Sx("h"), ["fn", 1]]]
-    o = [["x", iv()], ["y", iv()], ["p", ["o", [["x", iv()], ["q", ["l", [iv(), iv()]]]]]]]
+    # attributes whose NAMES look like paths: getattr(o, 'p.x') is a different location from o.p.x
+    # although both print "o.p.x" (likewise 'p.q' and 'p.q[0]')
+    o = [["x", iv()], ["y", iv()], ["p", ["o", [["x", iv()], ["q", ["l", [iv(), iv()]]]]]],
+         ["p.x", iv()], ["p.q", iv()], ["p.q[0]", iv()]]
     g = [[Sx("u"), iv()], [Sx("v"), iv()]]
     return [["c", ["d", c]], ["o", ["o", o]], ["g", ["d", g]]]
 
@@ -91,6 +94,7 @@ def leaf_ref(rng, const_keys=False):
         lambda: ["item", ["attr", ["attr", o, "p"], "q"], val(rng.choice([0, 1]))],
         lambda: ["attr", g, rng.choice("uv")],
         lambda: ["item", g, ["val", Sx(rng.choice("uv"))]],
+        lambda: ["attr", o, rng.choice(["p.x", "p.q", "p.q[0]"])],         # getattr(o, 'p.x'): a dotted attribute NAME
     ]
     if not const_keys:
         opts += [
